@@ -18,7 +18,7 @@ func (r *Run) Do(op Op) {
 		return
 	}
 	switch op.K {
-	case "CreateColl", "DropColl", "Purge", "Reopen", "Stable", "Sync", "GhostWrite", "OtherBucketWrite":
+	case "CreateColl", "DropColl", "Purge", "Reopen", "Stable", "Sync", "GhostWrite", "OtherBucketWrite", "StopFeed":
 	default:
 		if op.C >= 0 && op.C < len(r.W.Model.Colls) && r.W.Model.Colls[op.C].Dropped {
 			// addressed to a collection that does not exist at this point (only reachable in
@@ -28,6 +28,10 @@ func (r *Run) Do(op Op) {
 			r.Trace = append(r.Trace, StepTrace{Op: op, Outcome: "no-such-collection"})
 			return
 		}
+	}
+	switch op.K {
+	case "Reopen", "DropColl", "CreateColl", "Purge":
+		r.closeIters() // (not across a close of the handles / a drop: what an open iterator then does is not the subject)
 	}
 	r.step = r.nDo
 	r.nDo++
@@ -41,8 +45,8 @@ func (r *Run) Do(op Op) {
 			r.isoProbe(-2, op.K) // may legitimately touch every collection: refresh all probes
 		case "Stable", "Sync", "Backfill", "Reopen":
 			r.isoProbe(-1, op.K)
-		case "DropColl", "CreateColl":
-			// probes handled by the step itself
+		case "DropColl", "CreateColl", "StartFeed", "StopFeed":
+			// probes handled by the step itself / nothing to probe
 		default:
 			r.isoProbe(op.C, op.K)
 		}
@@ -214,7 +218,9 @@ func finishRun(run *Run, pr *Profile) {
 		return
 	}
 	run.step = run.nDo
+	run.closeIters()
 	run.SyncFeeds()
+	run.checkStoppedFeeds()
 	if pr != nil && pr.Backfill > 0 {
 		for ci := range run.W.Cfg.Colls {
 			if !run.W.Model.Colls[ci].Dropped {
